@@ -111,6 +111,16 @@ point<double> layout::graph::transform3::zero() const
 {
 	return point<double>(_base.x, _base.y);
 }
+// range boundary crossing on logarithmic scale, relative to segment from outside to inside value
+static float log_fraction(double out, double in, const struct range &l)
+{
+	// no position on logarithmic scale
+	if (!(out > 0)) {
+		return 1;
+	}
+	double pos = log10(out);
+	return (log10(out < l.min ? l.min : l.max) - pos) / (log10(in) - pos);
+}
 linepart layout::graph::transform3::part(unsigned dim, const double *val, int len) const
 {
 	struct range l;
@@ -136,15 +146,14 @@ linepart layout::graph::transform3::part(unsigned dim, const double *val, int le
 	}
 	mpt_linepart_linear(&lp, val, len, &l);
 	
+	// fractions are applied to logarithmic values
 	if (curr->_flags & TransformLg) {
-		double cut  = lp.cut();
-		double trim = lp.trim();
-		
-		if (cut) cut = log10(cut);
-		if (trim) trim = log10(trim);
-		
-		lp.set_cut(cut);
-		lp.set_trim(trim);
+		if (lp._cut && lp.usr > 1) {
+			lp.set_cut(log_fraction(val[0], val[1], l));
+		}
+		if (lp._trim && lp.usr > 1) {
+			lp.set_trim(log_fraction(val[lp.usr - 1], val[lp.usr - 2], l));
+		}
 	}
 	return lp;
 }
